@@ -1,2 +1,389 @@
-/- Model driver for C07 (line protocol). Stub until the property's model lands. -/
-def main : IO Unit := pure ()
+/-
+  Model driver for C07: trace inclusion. One op per line:
+      trace threads=<n> failfast=<0|1> timed=<0|1> ev=<events>
+  where <events> is the comma separated H3 event list printed by harness/c07_main.c, each "<id>.<tid>.<ptr>.<a>.<b>.<c>"
+  (ids: 1/2/3 = harness call/return/lzma_end; 1xx main thread, 2xx workers, 3xx outqueue; see hooks/h3-mtdec.patch).
+  Pass 1 (`prescan`) reconstructs the item list of the file from the trace (sizes, per-Block verdicts, memory figures);
+  pass 2 maps every event to the label(s) of Model/MtDec.lean it stands for, runs `MtDec.step`, and cross-checks the values the
+  event carries (return codes, byte counts, snapshots, memory counters, can-start decisions) against the model state.
+  Answer: "accept events=<n> labels=<n> items=<n>"  or  "reject at=<event index> ev=<event> why=<reason>".
+-/
+import XzVerif.Model.Proto
+import XzVerif.Model.MtDec
+open XzVerif XzVerif.Proto XzVerif.MtDec
+
+structure Ev where
+  id : Nat
+  tid : Int
+  ptr : Int
+  a : Nat
+  b : Nat
+  c : Nat
+  deriving Repr, Inhabited
+
+def parseEv (t : String) : Option Ev :=
+  match t.splitOn "." with
+  | [i, tid, p, a, b, c] => do
+    let i ← i.toNat?
+    let tid ← tid.toInt?
+    let p ← p.toInt?
+    let a ← a.toNat?
+    let b ← b.toNat?
+    let c ← c.toNat?
+    pure { id := i, tid := tid, ptr := p, a := a, b := b, c := c }
+  | _ => none
+
+def argOf (ws : List String) (key : String) : Option String :=
+  ws.findSome? fun w => if w.startsWith (key ++ "=") then some (w.drop (key.length + 1)).toString else none
+
+-- ---------------------------------------------------------------------------------------------
+-- pass 1: items of the file as far as the trace reveals them
+-- ---------------------------------------------------------------------------------------------
+
+structure Pre where
+  blocks : Array Block := #[]
+  fresh : Bool := false            -- a Block Header was just decoded successfully (event 103 a=1), kind not yet known
+  syncOpen : Option Nat := none    -- index of the sync item whose verdict is still open
+  drained : Bool := false          -- event 140 a=0 seen for the open sync item
+  lastRow : Nat := 0               -- return value of the most recent read_output_and_wait in this call
+  owner : List (Int × Nat) := []   -- worker pointer id -> item index it decodes
+  directOpen : Option Nat := none
+  pendThr : Nat := 0               -- memThr of the Block being set up (event 109)
+  pendOut : Nat := 0               -- memOut (event 300)
+  memLimit : Nat := 0
+  bad : Option String := none
+
+def Pre.push (p : Pre) (b : Block) : Pre := { p with blocks := p.blocks.push b, fresh := false }
+
+def Pre.modify (p : Pre) (i : Nat) (f : Block → Block) : Pre := { p with blocks := p.blocks.modify i f }
+
+def zeros (n : Nat) : List UInt8 := List.replicate n 0
+
+def prescanStep (p : Pre) (e : Ev) : Pre :=
+  match e.id with
+  | 1 => { p with lastRow := 0 }
+  | 102 => if e.a != 0 then p.push { kind := .badHeader, ret := e.a } else p
+  | 103 =>
+    if e.a == 0 then p
+    else if e.a == 102 then
+      match p.syncOpen with
+      | some _ => p     -- re-entry is impossible (sequence has moved on), defensive
+      | none => { (p.push { kind := .sync, ret := END }) with syncOpen := some p.blocks.size, drained := false }
+    else if e.a == 1 then { p with fresh := true }
+    else p.push { kind := .badHeader, ret := e.a }
+  | 104 => if p.fresh then p.push { kind := .badHeader, ret := 8 } else p
+  | 105 => if p.fresh && e.a == 1 then p.push { kind := .badHeader, ret := 6 } else p
+  | 106 => if p.fresh then { (p.push { kind := .direct, ret := END }) with directOpen := some p.blocks.size } else p
+  | 107 =>
+    if !p.fresh then p
+    else if e.a != 0 then p.push { kind := .badHeader, ret := e.a }
+    else { (p.push { kind := .thr, ret := END }) with memLimit := e.c }
+  | 109 => { p with pendThr := e.a }
+  | 300 => { p with pendOut := e.b }
+  | 110 => if e.a != 0 then { p with bad := some "unmodelled: lzma_block_decoder_init failed in a worker set-up" } else p
+  | 118 => if e.a != 0 then { p with bad := some "unmodelled: lzma_block_decoder_init failed in direct mode" } else p
+  | 111 =>
+    -- the thr item being set up is the last pushed thr item
+    let i := p.blocks.size - 1
+    let p := p.modify i fun b => { b with inSize := e.a, needIn := e.a, data := zeros e.b, memThr := p.pendThr, memOut := p.pendOut }
+    { p with owner := (e.ptr, i) :: p.owner.filter (·.1 != e.ptr) }
+  | 204 =>
+    if e.a != 0 then
+      match p.owner.find? (·.1 == e.ptr) with
+      | some (_, i) => p.modify i fun b => { b with needIn := e.b, data := zeros e.c, ret := e.a }
+      | none => p
+    else p
+  | 119 =>
+    match p.directOpen with
+    | some i =>
+      let p := p.modify i fun b => { b with data := b.data ++ zeros e.b }
+      if e.a != 0 then { (p.modify i fun b => { b with ret := e.a }) with directOpen := none } else p
+    | none => p
+  | 134 => { p with lastRow := e.a }
+  | 140 => if e.a == 0 then { p with drained := true } else p
+  | 143 => { p with syncOpen := none }      -- Index + Footer + Padding were fine, the next Stream starts
+  | 2 =>
+    match p.syncOpen with
+    | some i =>
+      let r := e.a
+      if p.drained && r != 0 && r != 2 && r != 3 && r != 4 && r != 10 && !(p.lastRow == r && r != 1) then
+        { (p.modify i fun b => { b with ret := r }) with syncOpen := none }
+      else p
+    | none => p
+  | _ => p
+
+def prescan (evs : Array Ev) : Pre := evs.foldl prescanStep {}
+
+-- ---------------------------------------------------------------------------------------------
+-- pass 2: replay
+-- ---------------------------------------------------------------------------------------------
+
+structure D where
+  s : State
+  ptrs : List (Int × Nat) := []    -- worker pointer id -> index in coder->threads[]
+  call : Option (Bool × Bool × Nat) := none   -- harness event 1 waiting for event 100
+  nlabels : Nat := 0
+  failFast : Bool := false
+
+abbrev M := Except String
+
+def D.fire (d : D) (l : Label) : M D :=
+  match step d.s l with
+  | some s' => pure { d with s := s', nlabels := d.nlabels + 1 }
+  | none => throw s!"label {repr l} is not enabled in the model (main pc {repr d.s.pc}, seq {repr d.s.seq}, cur {d.s.cur}, queue {d.s.queue.length}, workers {d.s.workers.length})"
+
+def check (c : Bool) (msg : String) : M Unit := if c then pure () else throw msg
+
+def D.worker (d : D) (e : Ev) : M Nat :=
+  match d.ptrs.find? (·.1 == e.ptr) with
+  | some (_, i) => pure i
+  | none => throw "event of an unknown worker"
+
+def causeW (w : Worker) : Cause :=
+  match w.pc with
+  | .wait => if w.woken then .signalled else .spurious
+  | _ => .enter
+
+/-- Local main-thread steps that have no event of their own. -/
+partial def D.settle (d : D) : M D := do
+  match d.s.pc with
+  | .rowOk _ _ => (← d.fire .rowOk).settle
+  | .stopping i _ => if i ≥ d.s.workers.length then (← d.fire .stopOne).settle else pure d
+  | .endSet i _ => if i ≥ d.s.workers.length then (← d.fire .endSet).settle else pure d
+  | _ => pure d
+
+/-- Bring the main thread from `seq` to the entry of read_output_and_wait according to coder->sequence. -/
+def D.enterRow (d : D) : M D := do
+  match d.s.pc with
+  | .row _ _ => pure d
+  | .seq =>
+    match d.s.seq with
+    | .thrInit => d.fire .thrInitEnter
+    | .directInit => d.fire .directInit
+    | .indexWait => d.fire (.indexStep false)
+    | .error => d.fire .seqError
+    | _ => throw "read_output_and_wait entered from an unexpected sequence"
+  | _ => throw "read_output_and_wait entered from an unexpected program counter"
+
+def okLike (r : Nat) : Bool := r == 0 || r == 2 || r == 3 || r == 4 || r == 10
+
+def D.onEvent (d : D) (e : Ev) : M D := do
+  match e.id with
+  -- ---- harness level ------------------------------------------------------------------------
+  | 1 => pure { d with call := some (e.a == 1, e.b == 0, e.c) }
+  | 100 =>
+    match d.call with
+    | some (fin, noIn, cap) =>
+      let d ← d.fire (.call fin noIn cap)
+      check (d.s.waitingAllowed == (e.a == 1)) s!"waiting_allowed: model {d.s.waitingAllowed}, implementation {e.a}"
+      pure { d with call := none }
+    | none => throw "stream_decode_mt entered without lzma_code"
+  | 2 =>
+    match d.call with
+    | some _ => pure { d with call := none }      -- lzma_code returned without calling the coder
+    | none =>
+      let d ← d.settle
+      let d ← match d.s.pc, d.s.seq with
+        | .seq, .indexDecode => d.fire (.indexStep (!okLike e.a))
+        | .seq, .blockHeader => d.fire .needInput
+        | _, _ => pure d
+      match d.s.pc with
+      | .ret r =>
+        let r' := if r == TIMED_OUT then 0 else r
+        check (r' == e.a || (r' == 0 && okLike e.a)) s!"return value: model {r}, implementation {e.a}"
+        d.fire .ret
+      | _ => throw "lzma_code returned but the model's main thread is not at a return point"
+  | 3 => d.fire .endCall
+  | 150 => pure d
+  -- ---- stream header ------------------------------------------------------------------------
+  | 101 => pure d
+  | 102 => if e.a != 0 then d.fire .hdrFatal else pure d
+  | 143 => d.fire (.indexStep true)
+  | 141 => pure d
+  -- ---- block header / init --------------------------------------------------------------------
+  | 103 =>
+    if e.a == 0 then
+      if d.failFast && e.b == 1 then d.fire .ffStop else d.fire .hdrNeed
+    else d.fire .hdrGot
+  | 104 => pure d
+  | 105 => if e.a == 1 then pure d else pure d
+  | 106 => d.fire .blockInit
+  | 107 => if e.a == 0 then d.fire .blockInit else pure d
+  | 142 => pure d
+  -- ---- read_output_and_wait -------------------------------------------------------------------
+  | 130 =>
+    let d ← d.enterRow
+    match d.s.pc with
+    | .row k w =>
+      check (askCanStart k == (e.a == 1)) "read_output_and_wait: input_is_possible differs"
+      check (w == (e.b == 1)) s!"read_output_and_wait: waiting_allowed differs (model {w}, implementation {e.b})"
+      check (d.s.outCap == e.c) s!"output space: model {d.s.outCap}, implementation {e.c}"
+      pure d
+    | _ => throw "unreachable"
+  | 131 =>
+    let cap0 := d.s.outCap
+    let c := match d.s.pc with
+      | .rowWait _ _ => if d.s.mwoken then Cause.signalled else Cause.spurious
+      | _ => Cause.enter
+    let d ← d.fire (.rowIter c)
+    check (cap0 - d.s.outCap == e.b) s!"bytes copied from the queue: model {cap0 - d.s.outCap}, implementation {e.b}"
+    check (d.s.threadError == e.c) s!"thread_error: model {d.s.threadError}, implementation {e.c}"
+    match d.s.pc with
+    | .rowDone _ r _ => check (if e.a != 0 then r == e.a else true) s!"lzma_outq_read result: model {r}, implementation {e.a}"
+    | .rowWait _ _ => check (e.a == 0) "model waits but the queue returned an error"
+    | _ => throw "unreachable"
+    pure d
+  | 132 =>
+    match d.s.pc with
+    | .rowWait _ _ => check (d.s.cfg.timed == (e.a == 1)) "timed wait flag differs" *> pure d
+    | pc => throw s!"implementation waits on coder->cond but the model left the loop ({repr pc})"
+  | 133 => d.fire .rowTimeout
+  | 134 =>
+    match d.s.pc with
+    | .rowDone _ r cs =>
+      check (r == e.a) s!"read_output_and_wait returns: model {r}, implementation {e.a}"
+      check (cs == (e.b == 1)) s!"block_can_start: model {cs}, implementation {e.b}"
+      check ((d.s.pend != .none) == (e.c != 0)) s!"pending_error set: model {repr d.s.pend}, implementation {e.c}"
+      (← d.fire .rowDone).settle
+    | pc => throw s!"implementation leaves read_output_and_wait but the model is at {repr pc}"
+  | 123 => let _ ← d.worker e; d.fire .stopOne
+  | 108 => pure d
+  | 116 => pure d
+  | 140 => pure d
+  -- ---- thread set-up --------------------------------------------------------------------------
+  | 109 =>
+    let d ← d.fire .memUpdate
+    check (d.s.memInUse == e.b) s!"mem_in_use: model {d.s.memInUse}, implementation {e.b}"
+    pure d
+  | 124 =>
+    let d := { d with ptrs := (e.ptr, d.s.workers.length) :: d.ptrs.filter (·.1 != e.ptr) }
+    check (e.a == d.s.workers.length) "threads_initialized differs"
+    let d ← d.fire .getThread
+    check (d.s.thr == some e.a) "a new thread was created but the model reused one"
+    pure d
+  | 125 =>
+    let i ← d.worker e
+    let d ← d.fire .getThread
+    check (d.s.thr == some i) s!"reused worker: model {repr d.s.thr}, implementation {i}"
+    pure d
+  | 110 => if e.a != 0 then throw "unmodelled: lzma_block_decoder_init failed" else pure d
+  | 111 =>
+    let d ← d.fire .assign
+    let i ← d.worker e
+    check ((getW d.s i).inSize == e.a) "in_size differs"
+    pure d
+  | 112 => d.fire .startThr
+  | 113 => d.fire .enablePartial
+  | 114 =>
+    let i ← d.worker e
+    check (d.s.thr == some i) "coder->thr differs"
+    let w := getW d.s i
+    check (w.inFilled ≤ e.a) "in_filled went backwards"
+    d.fire (.copyIn (e.a - w.inFilled) (e.b == 1))
+  | 115 => d.fire .tell
+  -- ---- direct mode ------------------------------------------------------------------------------
+  | 117 => pure d
+  | 118 => if e.a != 0 then throw "unmodelled: direct-mode lzma_block_decoder_init failed" else pure d
+  | 119 =>
+    let d ← d.fire (.directStep e.b (e.a != 0))
+    if e.a != 0 && e.a != 1 then
+      match d.s.pc with
+      | .ret r => check (r == e.a) "direct-mode verdict differs" *> pure d
+      | _ => throw "unreachable"
+    else pure d
+  -- ---- threads_end --------------------------------------------------------------------------------
+  | 120 => d.fire .endSet
+  | 122 =>
+    match d.s.pc with
+    | .idle => pure d                     -- threads_end from the initialisation, before any thread exists
+    | _ =>
+      let d ← d.settle
+      let n := d.s.workers.length
+      let d ← (List.range (n + 1)).foldlM (fun d _ => d.fire .endJoin) d
+      pure { d with ptrs := [] }
+  -- ---- outqueue.c events are implied by the above ---------------------------------------------------
+  | 300 => pure d
+  | 301 => pure d
+  | 302 => pure d
+  | 210 => pure d
+  -- ---- workers ------------------------------------------------------------------------------------------
+  | 200 =>
+    let i ← d.worker e
+    let d ← d.fire (.wLoop i (causeW (getW d.s i)))
+    check ((getW d.s i).pc == .wait && (getW d.s i).st == .idle) "worker waits as idle but the model decided otherwise"
+    pure d
+  | 201 =>
+    let i ← d.worker e
+    let d ← d.fire (.wLoop i (causeW (getW d.s i)))
+    check ((getW d.s i).pc == .cleanup) "worker saw THR_EXIT but the model decided otherwise"
+    pure d
+  | 202 =>
+    let i ← d.worker e
+    let d ← d.fire (.wLoop i (causeW (getW d.s i)))
+    let w := getW d.s i
+    check (w.pc == .wait && w.st == .run) "worker waits for input but the model decided otherwise"
+    check (w.inFilled == e.a && w.inPos == e.b) "worker snapshot (in_filled, in_pos) differs"
+    pure d
+  | 203 =>
+    let i ← d.worker e
+    let d ← d.fire (.wLoop i (causeW (getW d.s i)))
+    let w := getW d.s i
+    check (w.inFilled == e.a && w.inPos == e.c) s!"worker snapshot differs: model in_filled {w.inFilled} in_pos {w.inPos}, implementation {e.a} {e.c}"
+    match w.pc with
+    | .decode _ pu =>
+      let code := match pu with | .disabled => 0 | .start => 1 | .enabled => 2
+      check (code == e.b) s!"partial_update snapshot: model {code}, implementation {e.b}"
+      pure d
+    | pc => throw s!"worker decodes but the model decided {repr pc}"
+  | 204 =>
+    let i ← d.worker e
+    d.fire (.wDecode i e.b e.c (e.a != 0))
+  | 205 =>
+    let i ← d.worker e
+    let w := getW d.s i
+    check (w.outPos == e.a && w.inPos == e.b) "published positions differ"
+    d.fire (.wPublish i)
+  | 206 =>
+    let i ← d.worker e
+    let d ← d.fire (.wFin1 i)
+    match (getW d.s i).pc with
+    | .fin2 r => check (r == e.a) s!"worker verdict: model {r}, implementation {e.a}" *> pure d
+    | _ => throw "unreachable"
+  | 207 =>
+    let i ← d.worker e
+    let d ← d.fire (.wFin2 i)
+    check ((getW d.s i).inAlloc == (e.a == 0) || !(getW d.s i).inAlloc) "input buffer free differs"
+    pure d
+  | 208 => let i ← d.worker e; d.fire (.wFin3 i)
+  | 209 => let i ← d.worker e; d.fire (.wCleanup i)
+  | n => throw s!"unknown event id {n}"
+
+def replay (cfg : Cfg) (evs : Array Ev) (pre : Pre) : String := Id.run do
+  let mut d : D := { s := init cfg pre.blocks.toList, failFast := cfg.failFast }
+  let mut k := 0
+  for e in evs do
+    match d.onEvent e with
+    | .ok d' => d := d'
+    | .error msg => return s!"reject at={k} ev={e.id}.{e.tid}.{e.ptr}.{e.a}.{e.b}.{e.c} why={msg}"
+    k := k + 1
+  return s!"accept events={evs.size} labels={d.nlabels} items={pre.blocks.size}"
+
+def stepLine (_ : Unit) (ws : List String) : Unit × String :=
+  match ws with
+  | "trace" :: rest =>
+    match argOf rest "threads", argOf rest "failfast", argOf rest "timed", argOf rest "ev" with
+    | some t, some ff, some tm, some evs =>
+      match (evs.splitOn ",").mapM parseEv with
+      | some l =>
+        let evs := l.toArray
+        let pre := prescan evs
+        match pre.bad with
+        | some msg => ((), "skip " ++ msg)
+        | none =>
+          let cfg : Cfg := { threadsMax := t.toNat!, failFast := ff == "1", timed := tm == "1", memLimit := pre.memLimit }
+          ((), replay cfg evs pre)
+      | none => ((), "bad-events")
+    | _, _, _, _ => ((), "bad-op")
+  | _ => ((), "bad-op")
+
+def main : IO Unit := runLoop stepLine ()
